@@ -12,6 +12,7 @@ EXTENDS Layout
 CONSTANTS MaxNodes,      \* nodes per tree
           CompTypes,     \* composite class names used for children
           Grids,         \* grid choices for composites: subset of {"none","g1","g2","g1b","ax"}
+          NCells,        \* grid cells offered to index locators (1..3)
           MaxLevel
 
 VARIABLES t
@@ -27,7 +28,7 @@ Base(id, ty, cmp) == [ty |-> ty, nm |-> "n" \o ToString(id), sn |-> 10 + id, kid
                       grid |-> NoGrid, cmp |-> cmp, ck |-> <<0, 0>>, mat |-> "", tmp |-> <<>>,
                       pd |-> "d", pn |-> "c", pp |-> "p" \o ToString(id), oc |-> "o", od |-> "o", om |-> "m" \o ToString(id)]
 
-Cells == {<<0, 0, 0>>, <<1, 0, 0>>, <<0, 0, 1>>}
+Cells == {<<<<1, 0, 0>>, <<0, 0, 0>>, <<0, 0, 1>>>>[k] : k \in 1..NCells}
 LocChoices(p, cmp) ==
     {[lk |-> "N", loc |-> <<>>, lg |-> 0], [lk |-> "C", loc |-> <<<<"1.5", "0.0", "-2.25">>>>, lg |-> 0]}
     \cup (IF t[p].grid = NoGrid THEN {} ELSE
@@ -51,17 +52,19 @@ AddChild(p) == /\ Len(t) < MaxNodes /\ ~t[p].cmp
                      t' = Append([t EXCEPT ![p].kids = Append(@, Len(t) + 1)], nd)
 Next == \E p \in Ix(t) : AddChild(p)
 Bound == TLCGet("level") <= MaxLevel
+\* a tree the writer refuses stays refused whatever is added: do not grow it further (it is still checked / emitted itself)
+Prune == Sortable(t)
 
 (* ------------------------------------------------ theorems ------------------------------------------------ *)
 F == Flatten(t)
 TypeOK        == WellFormed(t)
-RoundTrip     == Sortable(t) => Load(F) = Canon(t)
+RoundTrip     == Sortable(t) => LoadFile(F) = Canon(t)
 FileIsSorted  == Sortable(t) => Unflatten(F) = Canon(t)                \* the loader's sort finds nothing to do
-ResaveSame    == Sortable(t) => /\ FileObs(Flatten(Load(F))) = FileObs(F)
-                                /\ Load(Flatten(Load(F))) = Load(F)
+ResaveSame    == Sortable(t) => /\ FileObs(Flatten(LoadFile(F))) = FileObs(F)
+                                /\ LoadFile(Flatten(LoadFile(F))) = LoadFile(F)
 CanonIdem     == Sortable(t) => /\ Canon(Canon(t)) = Canon(t)
                                 /\ FileObs(Flatten(Canon(t))) = FileObs(F)
-ClauseWise    == Sortable(t) => ObsEqual(Canon(t), Load(F))
+ClauseWise    == Sortable(t) => ObsEqual(Canon(t), LoadFile(F))
 FileConsistent == Sortable(t) => Consistent(F)
 IndexBijection == Sortable(t) =>
     \A ty \in {F.type[i] : i \in Ix(F.type)} :
@@ -83,6 +86,6 @@ RowsAccounted == Sortable(t) =>
 View == t
 EmitCase == PrintT(ToJson([t |-> t, sortable |-> Sortable(t),
                            file |-> IF Sortable(t) THEN FileObs(F) ELSE <<>>,
-                           loaded |-> IF Sortable(t) THEN Load(F) ELSE <<>>,
+                           loaded |-> IF Sortable(t) THEN LoadFile(F) ELSE <<>>,
                            anc |-> IF Sortable(t) THEN Ancestors(F.serialNum, F.numChildren) ELSE <<>>]))
 =====================================================================================================
